@@ -22,11 +22,12 @@ CLAUSES = ["Admission", "Successor", "WalledNotActive", "IndexExact", "StatsTrue
 SPEC_DIR = "SubscriberFsm"
 # constants of MC_shape_orig.cfg as the harness needs them to rebuild the system of a counterexample
 SHAPE_CFG = dict(impl="shape", n=2, max=2, sto=0, ito=1, asto=0, aito=0, cap=2, u4=2, u6=0, nsubs=2, poola=[1, 2], poolb=[], advs=[2],
-                 ops=["create", "auth:ok", "auth:fail", "assign:a", "activate", "walled", "unwalled", "activity", "term:admin", "tick",
+                 ops=["create", "auth:ok", "auth:fail", "assign:a", "activate", "walled", "unwalled", "activity", "activity*", "term:admin", "tick",
                       "auth_begin:ok", "auth_begin:fail", "term_begin", "assign_begin:a", "tick_begin", "cont"])
 
-DESIGN = [("SubscriberFsmDesign", "MC_design.cfg", 4), ("SubscriberFsmShape", "MC_shape_fixed.cfg", 4)]
-DESIGN_THOROUGH = DESIGN + [("SubscriberFsmDesign", "MC_design_full.cfg", 8)]
+DESIGN = [("SubscriberFsmDesign", "MC_design.cfg", 2), ("SubscriberFsmDesign", "MC_design_mut.cfg", 1), ("SubscriberFsmShape", "MC_shape_fixed.cfg", 2)]
+DESIGN_THOROUGH = DESIGN + [("SubscriberFsmDesign", "MC_design_cap.cfg", 4), ("SubscriberFsmDesign", "MC_design_deep.cfg", 4), ("SubscriberFsmDesign", "MC_design_full.cfg", 4),
+                            ("SubscriberFsmShape", "MC_shape_fixed_rich.cfg", 4)]
 
 
 def flux_kind(events):
@@ -36,8 +37,6 @@ def flux_kind(events):
         op = e.get("op", "")
         if op.endswith("_begin") and e.get("done") is False:
             kind = op
-        elif op == "cont" and e.get("done") is True and not e.get("skip"):
-            last_cont = True
     return kind
 
 
@@ -65,7 +64,7 @@ def _design_counterexamples(work):
     """TLC on the design as it is; returns [(clauses, call in flight, events)], shortest per pair."""
     sd = os.path.join(SPECS, SPEC_DIR)
     cfg = open(os.path.join(sd, "MC_shape_orig.cfg")).read()
-    res = run_tlc(sd, "SubscriberFsmShape", cfg, work, workers=4, timeout=900, name="shape_orig")
+    res = run_tlc(sd, "SubscriberFsmShape", cfg, work, workers=1, timeout=900, name="shape_orig")   # one worker: strict breadth-first order, shortest histories
     if "Model checking completed" not in res["out"] or "Error:" in res["out"]:
         raise Infra("SubscriberFsmShape (design as it is) did not run to completion:\n" + res["out"][-2000:])
     return res, _parse_cex(res["out"])
@@ -86,24 +85,24 @@ def runner(prop, fam, tier, seed, replay=None):
     pre = os.path.join(WORK, "%s-shape-%d" % (prop, os.getpid()))
     shutil.rmtree(pre, ignore_errors=True)
     os.makedirs(pre)
+    ex = None
     try:
         fam2 = dict(fam)
         fam2.pop("runner", None)
         fam2["design"] = []   # run here, concurrently
         shape_info, design_stats = None, []
+        fs = []
         if not replay:
             from concurrent.futures import ThreadPoolExecutor
+            ex = ThreadPoolExecutor(max_workers=4)
+            # the counterexamples are needed by the explorer; the other design runs go on beside the exploration
+            f0 = ex.submit(_design_counterexamples, pre)
+            fs = [ex.submit(_design_must_pass, pre, m, c, w) for (m, c, w) in (DESIGN_THOROUGH if tier == "thorough" else DESIGN)]
             try:
-                with ThreadPoolExecutor(max_workers=3) as ex:
-                    f0 = ex.submit(_design_counterexamples, pre)
-                    fs = [ex.submit(_design_must_pass, pre, m, c, w) for (m, c, w) in (DESIGN_THOROUGH if tier == "thorough" else DESIGN)]
-                    res, cex = f0.result()
-                    design_stats = [f.result() for f in fs]
+                res, cex = f0.result()
             except Infra as e:
                 print("INFRA-FAILURE property=%s %s" % (prop, str(e)[:3000]), flush=True)
                 return 2
-            for d in design_stats:
-                log("design %s/%s: %d distinct states" % (d["module"], d["cfg"], d["states"]))
             if not cex:
                 print("INFRA-FAILURE property=%s the model of the design as it is has no counterexample (the shape model no longer describes the races it was written for)" % prop, flush=True)
                 return 2
@@ -123,6 +122,15 @@ def runner(prop, fam, tier, seed, replay=None):
         except Exception:   # a crash of the driver is never a verdict
             import traceback
             print("INFRA-FAILURE property=%s driver exception: %s" % (prop, traceback.format_exc()[-2000:]), flush=True)
+            rc = 2
+        try:
+            design_stats = [f.result() for f in fs]
+        except Infra as e:
+            print("INFRA-FAILURE property=%s %s" % (prop, str(e)[:3000]), flush=True)
+            return 2
+        for d in design_stats:
+            log("design %s/%s: %d distinct states" % (d["module"], d["cfg"], d["states"]))
+        if rc == 2:
             return 2
         if shape_info is not None:
             p = vcheck.evidence_path(prop)
@@ -140,6 +148,8 @@ def runner(prop, fam, tier, seed, replay=None):
                 pass
         return rc
     finally:
+        if ex is not None:
+            ex.shutdown(wait=True)
         shutil.rmtree(pre, ignore_errors=True)
 
 
